@@ -20,10 +20,10 @@ def parse_in_vm(vm, mir, text):
     return vm.run_fn(f[0], [s])
 
 
-def exec_in_vm(vm, mir, program, stdin_lines=(), out_fail_at=None, in_fail_at=None, out_fail_mode='error'):
+def exec_in_vm(vm, mir, program, stdin_lines=(), out_fail_at=None, in_fail_at=None, out_fail_mode='error', chunked=False):
     """exec::exec_using(input, output, &program) with model streams; returns (Result Adt, out stream data, in stream data)"""
     f = find_fn(mir, 'exec_using')
-    out = out_stream(out_fail_at, out_fail_mode); inp = in_stream(stdin_lines, in_fail_at)
+    out = out_stream(out_fail_at, out_fail_mode); inp = in_stream(stdin_lines, in_fail_at, chunked)
     ocell = Cell(out)
     r = vm.run_fn(f, [inp, Ref(ocell), Ref(Cell(program)) if not isinstance(program, Ref) else program], {'In': 'VerifIn', 'Out': '&mut VerifOut'})
     return r, out.data, inp.data
